@@ -28,6 +28,106 @@ def add(prop, name, tiers, timeout_s=900, mem_gb=8, build="small", inputs="", bo
 Q = ("quick", "thorough")
 T = ("thorough",)
 
+# ---------------------------------------------------------------------------------------- C01 / C07 / C17 (inbound)
+def read_states():
+    for L in (8, 16, 24, 32):
+        for RP in range(0, L):
+            yield L, RP
+
+C01_QUICK = {(8, 0), (8, 6), (8, 7), (16, 0), (16, 14), (16, 15), (24, 23), (32, 0), (32, 24), (32, 30), (32, 31)}
+for L, RP in read_states():
+    quick = (L, RP) in C01_QUICK
+    add("C01", "p01::read_step_l%d_r%02d" % (L, RP), Q if quick else T, 900, 8,
+        body="crate::p01::read_step::<%d, %d, 2, false>" % (L, RP), unwind=42,
+        inputs="read buffer len=%d, read_pos=%d (concrete), the %d buffered bytes symbolic (last one not NUL); transport script of 2 steps, each symbolic in kind {data, pending, eof, error}, chunk length 1..=8 and chunk bytes" % (L, RP, RP),
+        bound="one read_from_socket call, <= 2 transport reads (+ EOF), small build (STEP=8, MAX=32)", role="read_step")
+    add("C07", "p01::read_step_cancel_l%d_r%02d" % (L, RP), Q if quick else T, 900, 8,
+        body="crate::p01::read_step::<%d, %d, 2, true>" % (L, RP), unwind=42,
+        inputs="as C01 read_step (len=%d, read_pos=%d), plus: at every Pending a symbolic bool decides whether the receive future is dropped and a new one created" % (L, RP),
+        bound="<= 2 transport steps, <= 3 futures, small build", role="read_step_cancel")
+for L, RP in ((8, 0), (8, 5), (16, 9), (32, 0), (32, 27)):
+    add("C01", "p01::read_step3_l%d_r%02d" % (L, RP), T, 1800, 10,
+        body="crate::p01::read_step::<%d, %d, 3, false>" % (L, RP), unwind=42,
+        inputs="as read_step with a script of 3 symbolic steps (len=%d, read_pos=%d)" % (L, RP),
+        bound="one read_from_socket call, <= 3 transport reads", role="read_step")
+    add("C07", "p01::cancel_relational_l%d_r%02d" % (L, RP), T, 1800, 10,
+        body="crate::p01::cancel_relational::<%d, %d, 2>" % (L, RP), unwind=42,
+        inputs="two real connections in state (len=%d, read_pos=%d) fed the same symbolic 2-step script; A's future dropped at a symbolic subset of Pendings, B's never" % (L, RP),
+        bound="<= 2 transport steps", role="cancel_relational")
+for (L, RP, MP) in ((8, 5, 3), (16, 12, 4), (32, 31, 16)):
+    add("C01", "p01::read_step_buffered_l%d_r%02d_m%02d" % (L, RP, MP), Q if L == 8 else T, 600, 6,
+        body="crate::p01::read_step_buffered::<%d, %d, %d>" % (L, RP, MP), unwind=42,
+        inputs="state with a frame already buffered (len=%d, read_pos=%d, msg_pos=%d), buffer bytes symbolic" % (L, RP, MP),
+        bound="one call", role="read_step_buffered")
+add("C01", "p01::read_init", Q, 300, 4, inputs="none (initial state of the induction)", bound="Connection::new", unwind=4)
+
+for ch in (3, 7, 8):
+    add("C17", "p17::limit_in_ch%d" % ch, Q if ch != 3 else T, 1800, 10,
+        body="crate::p17::limit_in::<%d>" % ch, unwind=50,
+        inputs="frame size (terminator included) symbolic in 1..=48 or never terminated; delivered in chunks of %d bytes from the initial state" % ch,
+        bound="one read_from_socket call from the fresh state, small build (STEP=8, MAX=32)", role="limit_in")
+add("C17", "p17::limit_constants", Q, 300, 4, build="prod", body="crate::p17::limit_constants", unwind=2,
+    inputs="none: relations between the production constants", bound="production build (BUFFER_SIZE=256, MAX=100 MiB)")
+for (L, P) in ((32, 13), (32, 14), (32, 29), (32, 31), (24, 24), (8, 0)):
+    add("C17", "p02::limit_out_send_l%d_p%02d" % (L, P), Q if (L, P) in ((32, 13), (32, 31)) else T, 900, 8,
+        body="crate::p02::send_at::<%d, %d>" % (L, P), unwind=74,
+        inputs="write buffer len=%d, pos=%d; symbolic choice send_call/send_reply/send_error with symbolic flags (documents 2..42 bytes)" % (L, P),
+        bound="one send from the concrete state; refusal iff pos+len+1 > MAX and then zero transport writes", role="limit_out")
+for (L, P) in ((32, 12), (32, 13), (32, 29), (32, 32), (24, 24)):
+    add("C17", "p02::limit_out_enqueue_l%d_p%02d" % (L, P), Q if (L, P) in ((32, 12), (32, 13)) else T, 900, 8,
+        body="crate::p02::enqueue_reply_at::<%d, %d>" % (L, P), unwind=74,
+        inputs="write buffer len=%d, pos=%d; Reply<()> with symbolic continues (2/18/19 bytes)" % (L, P),
+        bound="one enqueue from the concrete state", role="limit_out")
+
+# ---------------------------------------------------------------------------------------- C13
+for n in (4, 5, 6):
+    add("C13", "p13::idl_iface_name_n%d" % n, Q if n == 5 else T, 1800, 10, body="crate::p13::idl_iface_name::<%d>" % n, unwind=n + 3,
+        inputs="%d arbitrary ASCII bytes" % n, bound="interface_name production on %d bytes vs reference recogniser" % n, role="idl_iface_name")
+for n in (4, 6):
+    add("C13", "p13::idl_field_name_n%d" % n, Q if n == 4 else T, 1200, 8, body="crate::p13::idl_field_name::<%d>" % n, unwind=n + 3,
+        inputs="%d arbitrary ASCII bytes" % n, bound="field_name production on %d bytes vs reference recogniser" % n, role="idl_field_name")
+    add("C13", "p13::idl_type_name_n%d" % n, Q if n == 4 else T, 1200, 8, body="crate::p13::idl_type_name::<%d>" % n, unwind=n + 3,
+        inputs="%d arbitrary ASCII bytes" % n, bound="type_name production on %d bytes vs reference recogniser" % n, role="idl_type_name")
+add("C13", "p13::idl_ws_n5", Q, 1200, 8, body="crate::p13::idl_ws::<5>", unwind=9,
+    inputs="5 arbitrary ASCII bytes", bound="whitespace/comment production on 5 bytes vs reference", role="idl_ws")
+FIRSTS = ["question", "bracket", "lparen", "rparen", "upper", "prim", "other"]
+for f, fname in enumerate(FIRSTS):
+    for n in (3, 4, 5):
+        add("C13", "p13::idl_type_%s_n%d" % (fname, n), Q if n == 3 else T, 2400, 12, body="crate::p13::idl_type::<%d, %d>" % (f, n), unwind=n + 6,
+            inputs="first byte of class '%s', then %d arbitrary ASCII bytes" % (fname, n - 1),
+            bound="type production on %d bytes vs reference recogniser (inline nesting <= 2)" % n, role="idl_type")
+
+# ---------------------------------------------------------------------------------------- C02
+SMALL_LENS = (8, 16, 24, 32)
+# quick tier: boundary geometry that is cheap to decide (little or no buffer growth in the formula);
+# thorough tier: every (len, pos) of the small build for every message family.
+C02_QUICK = {
+    "enqueue_reply_at": {(8, 8), (16, 13), (24, 5), (24, 24), (32, 12), (32, 13), (32, 29), (32, 32)},
+    "enqueue_call_at": {(24, 24), (32, 0), (32, 29)},
+    "enqueue_str_at": {(32, 7), (32, 12)},
+    "enqueue_refused_at": {(16, 16), (32, 32)},
+    "flush_at": {(8, 0), (8, 8), (32, 32)},
+    "send_at": {(8, 0), (32, 13), (32, 31)},
+}
+C02_KINDS = [
+    ("enqueue_call_at", "Call<Empty> with 3 symbolic flags (8 documents of 2..42 bytes) through enqueue_call"),
+    ("enqueue_reply_at", "Reply<()> with continues in {None,Some(true),Some(false)} (2/18/19 bytes) through the private enqueue"),
+    ("enqueue_str_at", "Reply<&str> holding one symbolic ASCII character (document 19/20/24 bytes depending on the escape)"),
+    ("enqueue_refused_at", "a value with a bool map key, then a Reply<()> with symbolic continues"),
+    ("flush_at", "symbolic write failure, symbolic 0..=1 Pending from the transport"),
+    ("send_at", "symbolic choice send_call/send_reply/send_error, symbolic flags"),
+]
+for kind, what in C02_KINDS:
+    for L in SMALL_LENS:
+        for P in range(0, L + 1):
+            quick = (L, P) in C02_QUICK[kind]
+            add("C02", "p02::%s_l%d_p%02d" % (kind, L, P), Q if quick else T, 600 if quick else 1500, 8,
+                body="crate::p02::%s::<%d, %d>" % (kind, L, P), unwind=74,
+                inputs="write buffer len=%d, fill position=%d (concrete); %s" % (L, P, what),
+                bound="one operation from the concrete state (len=%d,pos=%d) of the small build (STEP=8, MAX=32)" % (L, P),
+                role=kind)
+add("C02", "p02::write_init", Q, 300, 4, inputs="none (initial state of the induction)", bound="Connection::new", unwind=4)
+
 # ---------------------------------------------------------------------------------------- C06
 add("C06", "p06::stream_counts_ready", Q, 900, 10, body="crate::p06::stream_counts::<3, false>", unwind=16,
     inputs="owed reply count 0..=3 symbolic; per receive a symbolic outcome in {continuing reply, final reply (continues absent), final reply (continues=false), method error, transport error}; up to 6 receives",
